@@ -109,8 +109,11 @@ def _dec_name(d: ast.expr) -> str:
 
 
 class Index:
-    def __init__(self, root: Optional[str] = None):
+    def __init__(self, root: Optional[str] = None, overrides: Optional[Dict[str, str]] = None):
         self.root = root or repo_root()
+        # in-memory replacement sources, keyed by path relative to Lib/ (used by the
+        # thorough tier's self-validation; nothing is written to disk)
+        self.overrides = dict(overrides or {})
         self.libdir = os.path.join(self.root, "Lib")
         self.pkgdir = os.path.join(self.libdir, PKG)
         if not os.path.isdir(self.pkgdir):
@@ -135,8 +138,11 @@ class Index:
                 modname = rel[:-3].replace(os.sep, ".")
                 if modname.endswith(".__init__"):
                     modname = modname[: -len(".__init__")]
-                with open(path, "r", encoding="utf-8") as f:
-                    src = f.read()
+                if rel in self.overrides:
+                    src = self.overrides[rel]
+                else:
+                    with open(path, "r", encoding="utf-8") as f:
+                        src = f.read()
                 try:
                     tree = ast.parse(src, filename=path)
                 except SyntaxError as e:
